@@ -197,6 +197,15 @@ def scripted_specs():
     out.append(dict(base, vp="MAJOR.MINOR.PATCH", old="1.2.3", flags=["--patch"], files=[
         mk("mod.py", ['__version__ = "{version}"'],
            [[T("# header")], [T("\x0c")], [O(0), T("  # page break above\x0b and a vertical tab here")], [T("x = 1 \u2028 y = 2")], [T("last")]])]))
+    # CR-only line endings, no terminator after the last line, the same pattern on three lines
+    out.append(dict(base, vp="MAJOR.MINOR.PATCH", old="1.2.3", flags=["--patch"], files=[
+        mk("NOTES.txt", ["release {version}"], [[T("first "), O(0)], [T("filler")], [T("again "), O(0), T(" here")], [T("and "), O(0)]], term="\r", final_newline=False)]))
+    # a glob entry and an explicit entry for one of its files: the explicit entry's extra pattern belongs to that file only; its sibling carries
+    # text the extra pattern would match (a historical line) and must keep it
+    hist = "pip install demo==1.2.3   <- historical line, not configured for this file"
+    out.append(dict(base, vp="MAJOR.MINOR.PATCH", old="1.2.3", flags=["--patch"], raw_entries=[("docs/*.md", ["Version: {version}"]), ("docs/index.md", ["pip install demo=={version}"])], files=[
+        mk("docs/index.md", ["Version: {version}", "pip install demo=={version}"], [[O(0)], [T("run "), O(1)]]),
+        mk("docs/changelog.md", ["Version: {version}"], [[O(0)], [T(hist)]])]))
     # a version file that consists of nothing but the version, without a final newline
     out.append(dict(base, vp="MAJOR.MINOR.PATCH", old="1.4.2", flags=["--patch"], files=[
         mk("VERSION", ["{version}"], [[O(0)]], final_newline=False)]))
@@ -206,7 +215,7 @@ def scripted_specs():
 def to_temp_project(project, spec, **kw):
     """Build a TempProject from a generated spec."""
     import os
-    files, contents = {}, {}
+    files, contents, later = {}, {}, {}
     for fs in spec["files"]:
         if fs.group:
             files[fs.group] = list(fs.patterns)
@@ -215,11 +224,20 @@ def to_temp_project(project, spec, **kw):
             d, base = os.path.split(fs.path)
             stem, ext = os.path.splitext(base)
             fs.glob = d + "/" + stem + "*" + ext
-            files[fs.glob] = list(fs.patterns[:1])
-            # the explicit entry may spell the same file differently (leading "./")
-            files[("./" + fs.path) if spec.get("dot_slash") else fs.path] = list(fs.patterns[1:])
+            # the explicit entry may spell the same file differently (leading "./"); half of the time the two entries are not adjacent and
+            # the explicit one comes first
+            explicit = ("./" + fs.path) if spec.get("dot_slash") else fs.path
+            if len(fs.path) % 2:
+                files[fs.glob] = list(fs.patterns[:1])
+                later[explicit] = list(fs.patterns[1:])
+            else:
+                files[explicit] = list(fs.patterns[1:])
+                later[fs.glob] = list(fs.patterns[:1])
         else:
             files[fs.path] = list(fs.patterns)
+    files.update(later)      # entries for the same file separated by the entries of all other files
+    if spec.get("raw_entries"):
+        files = dict(spec["raw_entries"])     # the file_patterns section exactly as given (globs, order)
     kw.setdefault("cfg_prefix", spec.get("cfg_prefix", "").format(q='"'))
     kw.setdefault("key_comment", spec.get("key_comment", False))
     if spec.get("fmt"):
